@@ -287,6 +287,9 @@ class SingleObserverExpression(ObserverExpression):
         )
 
     def _create_graphs(self, branches):
+        # Equal branches (e.g. from "x.[a, a]") describe the same observers:
+        # keep the first of each so that the graph's children are unique.
+        branches = list(dict.fromkeys(branches))
         return [
             ObserverGraph(node=self._observer, children=branches),
         ]
